@@ -81,7 +81,12 @@ def _default(o):
         return sorted(o)
     if isinstance(o, tuple):
         return list(o)
-    raise TypeError("not JSON-able: %r" % (o,))
+    if hasattr(o, "item") and callable(o.item):      # numpy scalars read from real objects
+        return o.item()
+    try:
+        return list(o)
+    except TypeError:
+        return repr(o)
 
 
 def short_digest(obj):
